@@ -267,6 +267,8 @@ class Run:
             exp = c.get("oracle")
             if m.startswith("driver-error"):
                 bad.append(("model driver error", c, m))
+            elif c.get("reject") and (c["impl"].startswith("ok") or c["impl"].startswith("call")):
+                bad.append(("implementation accepts a string the specification rejects", c, m))
             elif exp is not None and c["impl"] != exp:
                 bad.append(("implementation differs from the independent specification", c, m))
             elif c["impl"] != m:
